@@ -17,6 +17,10 @@ namespace Sys
 
 /-! ### C03: precedence, exact, in SimPy's order -/
 
+-- F13: with the repaired release timing the exact clause holds for EVERY block order
+-- (`C03_precedence_any_order`, TopsimProps/C03Traj.lean); the order condition `pollAfterSched` and its
+-- discharge for the simulator below are kept (they are still true) but are no longer needed for it.
+
 /-- The runs of the simulator are `ReachSchedFirst` runs of the block system (up to the `halted`
 flag): inside an instant the `allocate_tasks` process of an observation is resumed before the
 allocation processes it created, so the block in which an allocation process reports its task
